@@ -58,6 +58,23 @@ Definition m_transpose_ls (a : lsarr) : schunk :=
 (* ---------- construction ---------- *)
 
 (* NestedExtensionArray(values, validate) for a struct-list input *)
+(* _drop_hidden_elements: "a missing row holds nothing".  A chunk in which a MISSING row still spans elements of the value
+   buffers (by the offsets of the first field) is re-encoded (pc.if_else(valid, chunk, null)): afterwards every missing row
+   has an empty window in every field.  Other chunks are kept as they are. *)
+Definition hidden_count (c : schunk) : nat :=
+  match sfields c with
+  | [] => 0
+  | f0 :: _ => sum (map2 (fun (sv : bool) d => if sv then 0 else d) (svalid c) (diffs (offs (farr f0))))
+  end.
+(* pc.if_else(valid, chunk, null): a row that is missing gets a null list in every field, whatever its lists were *)
+Definition mask_rowsd (d : rowsd) : rowsd :=
+  (fst d, map (fun col => map2 (fun (b : bool) (o : option (list val)) => if b then o else None) (fst d) col) (snd d)).
+Definition renorm_chunk (sch : schema) (c : schunk) : list schunk :=
+  if hidden_count c =? 0 then [c]
+  else chunks (encode sch (mask_rowsd (decode {| ctype := sch; chunks := [c] |}))).
+Definition m_drop_hidden (p : chunked) : chunked :=
+  {| ctype := ctype p; chunks := flat_map (renorm_chunk (ctype p)) (chunks p) |}.
+
 Definition m_init (p : chunked) (validate : bool) : res chunked :=
   let p := match chunks p with
            | [] => {| ctype := ctype p;
@@ -67,7 +84,7 @@ Definition m_init (p : chunked) (validate : bool) : res chunked :=
                                                     (ctype p) |} ] |}
            | _ => p
            end in
-  if validate then (if m_validate p then Ok p else Err) else Ok p.
+  if validate then (if m_validate p then Ok (m_drop_hidden p) else Err) else Ok p.
 
 (* ---------- summary quantities ---------- *)
 
@@ -333,7 +350,7 @@ Definition m_set_list_field (p : chunked) (nm : string) (ty : ety) (v : larr) (k
                                   {| fname := nm; fty := ty; farr := la_slice start (start + sc_len c) v |})
                                (Some (sc_is_null c)))
                           (chunks p) (chunk_starts 0 (chunks p)) |} in
-      if m_validate new then Ok new else Err
+      if m_validate new then Ok (m_drop_hidden new) else Err
   end.
 
 Inductive flatval := FScalar (v : val) | FArray (vs : list val).
